@@ -9,7 +9,9 @@ THEOREMS = [
 ]
 RULE = ("ThreadSanitizer stress: T threads x a seeded mix of 18 operation kinds (SaveObject/LoadObject on MsgPack/JSON/XML/CSV from memory "
         "and streams, Convert::To for numbers/enums/chrono/UTF, validation-failing loads) on thread-local data plus shared read-only "
-        "inputs; every result compared with the sequential golden run; a TSan report or a differing result is a violation; "
+        "inputs (literal documents, one const source object with members of every supported kind incl. std::byte, enums, smart pointers, "
+        "all containers); the concurrent run starts cold (nothing of the library has run before), every result compared with the sequential "
+        "run made afterwards; saves from a source object placed in a read-only page (a write into the source is a crash); a TSan report or a differing result is a violation; "
         "non-trivial = a run with >= 2 threads; distinct = distinct (threads, iterations, seed) configurations")
 EXHAUSTIVE = {"quick": False, "thorough": False}
 ASSUMPTIONS = ["the program does not call setlocale (libstdc++ locale data is read-only otherwise)",
